@@ -51,6 +51,7 @@ type Options struct {
 	NotAllowed  bool   `json:"notAllowed,omitempty"`
 	Fallback    bool   `json:"fallback,omitempty"`
 	EncodedPath bool   `json:"encodedPath,omitempty"` // UseEncodedPath: match on URL.EscapedPath()
+	Wrapped     bool   `json:"wrapped,omitempty"`     // serve through Router.WrapHTTPHandlers(pass-through pre-handlers)
 	OnPanic     string `json:"onPanic,omitempty"` // handler id
 	OnError     string `json:"onError,omitempty"` // handler id
 }
